@@ -75,6 +75,24 @@ def run(chk: Check, proj: Project) -> None:
                lambda sub: _C15.s5(sub, proj, w, proj.mod("component_registry")), only=lambda o: "own-hash" in o.construct)
     chk.borrow("S16", "the default insertion points exist on every document: the end-tag scanner matches every syntactically valid </head> / </body> (whitespace before `>` included), so collected dependencies are never dropped for want of an insertion point (shared with C08-S8)",
                lambda sub: C08.s8_reader_not_wider(sub, proj, proj.mod("dependencies")), only=lambda o: "matches-every-head-body-end-tag" in o.construct)
+    from . import C13 as _C13
+
+    chk.borrow("S17", "a component pre-rendered in Python and handed on as slot content keeps its dependency marker intact: safe content is not escaped again (shared with C13-S2)",
+               lambda sub: _C13.s2(sub, proj, w), only=lambda o: "plain-content" in o.construct or "wrapper-escapes" in o.construct)
+    chk.rule("S18", "the Media of EVERY rendered class is collected through the class's merged `.media` (which includes inherited Media at any distance): the collector has no shortcut that decides from `class Media` declarations whether a class has files")
+    dm_ = proj.mod("dependencies")
+    pf_ = dm_.func("_process_dep_declarations")
+    gm_ = next((x for x in ast.walk(pf_) if isinstance(x, ast.FunctionDef) and x is not pf_ and any(isinstance(y, ast.Attribute) and y.attr == "media" for y in ast.walk(x))), None)
+    if gm_ is None:
+        chk.undecided("S18", "dependencies:_process_dep_declarations:media-collector", dm_.loc(pf_), "the function that reads `.media` of a rendered class was not found")
+    else:
+        rets_ = [r for r in ast.walk(gm_) if isinstance(r, ast.Return)]
+        # (a local alias of the instance's media counts)
+        med_names = {t.id for st_ in ast.walk(gm_) if isinstance(st_, ast.Assign) and any(isinstance(y, ast.Attribute) and y.attr == "media" for y in ast.walk(st_.value)) for t in st_.targets if isinstance(t, ast.Name)}
+        short_ = [r for r in rets_ if not (r.value is not None and any((isinstance(y, ast.Attribute) and y.attr == "media") or (isinstance(y, ast.Name) and y.id in med_names) for y in ast.walk(r.value)))]
+        chk.ob("S18", "dependencies:_process_dep_declarations:media-collector-has-no-shortcut", dm_.loc(short_[0]) if short_ else dm_.loc(gm_), not short_,
+               "every path returns the class's `.media`" if not short_ else
+               f"`{short(short_[0])}` under `{' and '.join(('' if pol else 'not ') + t for t, pol in cond_atoms(short_[0])) or 'some condition'}` skips the class: a component whose Media is declared two or more levels up (no own Media, none on the direct parent) contributes none of its Media.js / Media.css files")
     chk.borrow("S11", "scripts cached during a render are still there when the page's dependencies are collected: the library's own cache backend has an effective 'no limit' configuration (shared with C19-S7)",
                lambda sub: C19.s7_own_backend(sub, proj))
 
